@@ -268,6 +268,8 @@ def run_shard(tier, seed, spec, col):
     for i in range(spec["instances"]):
         rng = gen.rng_for(seed, ID, spec["shard"], i)
         name = names[(spec["shard"] * spec["instances"] + i) % len(names)]
+        if i % 4 == 3:
+            name = "random"  # random pedigree DAG (selfing, unknown parents, mixed ploidy, unbalanced / clonal gametes)
         I = pedgen.make_pedigree(rng, name)
         check_instance(I, rng, col, spec["shard"] * 100000 + i, tier)
         if i == 0 and spec["shard"] == 0:
